@@ -20,7 +20,8 @@ from harness import common
 
 GEN_MODULES = ['grid']
 MODEL_TARGETS = ['model/M_Grid.vo', 'model/M_GridSF.vo']
-PROOF_TARGETS = ['proofs/P_Grid.vo', 'proofs/P_GridInterp.vo', 'proofs/P_GridSF.vo']
+PROOF_TARGETS = ['proofs/P_Grid.vo', 'proofs/P_GridInterp.vo', 'proofs/P_GridSF.vo', 'proofs/P_GridCall.vo',
+                 'proofs/P_GridLocal.vo', 'proofs/P_GridIrr.vo', 'proofs/P_GridExt.vo']
 LEVEL = 'proof'
 RULE = ('regular grids: origin in {0, few-decimal, full-precision random, large (58000, 1e5..)} x spacing '
         'in 1e-3..1e3 (decimal and dyadic) x 2..200 points x {from_range, explicit delta, delta=None} x '
@@ -534,8 +535,14 @@ def gen_interp(rng, kind):
     if fam == 1:
         deg = 9
     # fine grids only (the coarse ones are the known finding of the rounding functions)
-    delta = rng.choice([0.1, 0.2, 0.25, 0.5, 1.0, 0.05, 0.01, 0.125])
-    origin = rng.choice([0.0, 1.0, -3.0, 1.5, -1.5, 2.25, 10.0, -0.3, 1.05])
+    if rng.random() < 0.25:
+        # large origin, dyadic spacing (exactly representable, still a fine grid): a relative
+        # comparison of cache keys (np.isclose) would confuse neighbouring cells here
+        delta = rng.choice([0.5, 0.25, 0.125, 1.0])
+        origin = rng.choice([58000.0, 1024.0, 57000.5, -4096.0])
+    else:
+        delta = rng.choice([0.1, 0.2, 0.25, 0.5, 1.0, 0.05, 0.01, 0.125])
+        origin = rng.choice([0.0, 1.0, -3.0, 1.5, -1.5, 2.25, 10.0, -0.3, 1.05])
     n = rng.randint(4, 40)
     nsrc = rng.randint(1, 4)
     n_per = [rng.randint(1, 3) for _ in range(nsrc)]
@@ -558,9 +565,18 @@ def interp_calls(rng, case, grid, delta):
             ident += 1
         shared = rng.random() < 0.4 or nsrc == 1
         m = 1 if shared else nsrc
-        if base is not None and rng.random() < 0.45 and len(base) == m:
+        r2 = rng.random()
+        if base is not None and r2 < 0.35 and len(base) == m:
             # stay in the same cells: small moves that keep lower / nearest grid point
             xs = [min(max(b + rng.uniform(-0.04, 0.04) * delta, lo), hi) for b in base]
+        elif base is not None and r2 < 0.6 and len(base) == m:
+            # some sources stay in their cell, the others move to a neighbouring / another cell
+            xs = []
+            for b in base:
+                if rng.random() < 0.5:
+                    xs.append(min(max(b + rng.uniform(-0.04, 0.04) * delta, lo), hi))
+                else:
+                    xs.append(min(max(b + rng.choice([-1, 1, 2, -3]) * delta, lo), hi))
         else:
             xs = []
             for _ in range(m):
